@@ -480,6 +480,45 @@ fn conformance(req: &J) -> J {
         }
         out.insert("entities".into(), J::Object(m));
     }
+    if let Some(r) = req.get("partial_request") {
+        use cedar_policy_core::ast::{EntityUID as CoreUid, EntityUIDEntry};
+        use cedar_policy_core::extensions::Extensions;
+        use cedar_policy_core::validator::ValidatorSchema;
+        let mut m = serde_json::Map::new();
+        match ValidatorSchema::from_cedarschema_str(req["schema"].as_str().unwrap_or(""), Extensions::all_available()) {
+            Err(e) => { m.insert("input_error".into(), json!(format!("schema: {e}"))); }
+            Ok((vs, _)) => {
+                let entry = |t: &str| -> Result<EntityUIDEntry, String> { if t == "?" { Ok(EntityUIDEntry::unknown()) } else { t.parse::<CoreUid>().map(|u| EntityUIDEntry::known(u, None)).map_err(|e| e.to_string()) } };
+                match (entry(r["principal"].as_str().unwrap_or("?")), entry(r["action"].as_str().unwrap_or("?")), entry(r["resource"].as_str().unwrap_or("?"))) {
+                    (Ok(p), Ok(a), Ok(rs)) => {
+                        let cx = match r.get("context") { Some(c) if !c.is_null() => cedar_policy_core::entities::json::ContextJsonParser::new(None::<&cedar_policy_core::entities::json::NullContextSchema>, Extensions::all_available()).from_json_value(c.clone()).ok(), _ => None };
+                        m.insert("Request::new_with_unknowns".into(), show(cedar_policy_core::ast::Request::new_with_unknowns(p, a, rs, cx, Some(&vs), Extensions::all_available())));
+                    }
+                    _ => { m.insert("input_error".into(), json!("bad uid")); }
+                }
+            }
+        }
+        out.insert("request".into(), J::Object(m));
+    }
+    // an entity built through the API (not parsed): {api_entity: {uid, attrs: {name: long}, tags: {name: long}}}
+    if let Some(e) = req.get("api_entity") {
+        use cedar_policy::RestrictedExpression;
+        let mut m = serde_json::Map::new();
+        let uid = EntityUid::from_str(e["uid"].as_str().unwrap_or(""));
+        let pairs = |j: &J| -> Vec<(String, RestrictedExpression)> { j.as_object().map(|o| o.iter().map(|(k, v)| (k.clone(), RestrictedExpression::new_long(v.as_i64().unwrap_or(0)))).collect()).unwrap_or_default() };
+        match uid {
+            Ok(uid) => match Entity::new_with_tags(uid, pairs(&e["attrs"]), std::collections::HashSet::<EntityUid>::new(), pairs(&e["tags"])) {
+                Ok(ent) => {
+                    m.insert("Entities::from_entities".into(), show(Entities::from_entities([ent.clone()], Some(&schema))));
+                    m.insert("Entities::add_entities".into(), show(Entities::empty().add_entities([ent.clone()], Some(&schema))));
+                    m.insert("Entities::upsert_entities".into(), show(Entities::empty().upsert_entities([ent], Some(&schema))));
+                }
+                Err(err) => { m.insert("input_error".into(), json!(err.to_string())); }
+            },
+            Err(err) => { m.insert("input_error".into(), json!(err.to_string())); }
+        }
+        out.insert("entities".into(), J::Object(m));
+    }
     if let Some(r) = req.get("request") {
         let mut m = serde_json::Map::new();
         let p = EntityUid::from_str(r["principal"].as_str().unwrap_or(""));
@@ -1661,6 +1700,39 @@ fn schema_syntax(req: &J) -> J {
     json!({"checks": checks})
 }
 
+/// partial authorization with an unknown principal of a known TYPE (and / or a partial store) vs every completion: a definite partial answer must be the answer of
+/// every completion, and re-authorizing with the completion must give what authorizing from scratch gives.
+/// {policies, entities, partial_store: bool, principal_type, completions: [uid text], resource} -> {partial: .., completions: [{principal, scratch, reauthorized}]}
+fn partial_completions(req: &J) -> J {
+    use cedar_policy::{Context, EntityUid, RestrictedExpression};
+    let pset = match PolicySet::from_str(req["policies"].as_str().unwrap_or("")) { Ok(p) => p, Err(e) => return json!({"input_error": e.to_string()}) };
+    let full = match Entities::from_json_value(req["entities"].clone(), None) { Ok(e) => e, Err(e) => return json!({"input_error": e.to_string()}) };
+    // the store seen by partial evaluation: optionally a partial store holding only the entities listed in `known`
+    let seen = match req.get("known") {
+        Some(k) if !k.is_null() => match Entities::from_json_value(k.clone(), None) { Ok(e) => e.partial(), Err(e) => return json!({"input_error": e.to_string()}) },
+        _ => full.clone(),
+    };
+    let auth = Authorizer::new();
+    let action = EntityUid::from_str(r#"Action::"view""#).unwrap();
+    let resource = EntityUid::from_str(req["resource"].as_str().unwrap_or(r#"Doc::"d1""#)).unwrap();
+    let mut b = Request::builder().action(action.clone()).resource(resource.clone()).context(Context::empty());
+    b = match req["principal_type"].as_str() { Some(t) => b.unknown_principal_with_type(t.parse().unwrap()), None => b.principal(EntityUid::from_str(req["principal"].as_str().unwrap_or(r#"User::"alice""#)).unwrap()) };
+    let pr = auth.is_authorized_partial(&b.build(), &pset, &seen);
+    let view = |r: &cedar_policy::Response| { let mut rs: Vec<String> = r.diagnostics().reason().map(|p| p.to_string()).collect(); rs.sort(); let mut es: Vec<String> = r.diagnostics().errors().map(|e| e.to_string().chars().take(60).collect()).collect(); es.sort(); json!({"decision": format!("{:?}", r.decision()), "reasons": rs, "errors": es}) };
+    let mut outs = vec![];
+    for c in req["completions"].as_array().cloned().unwrap_or_default() {
+        let p = EntityUid::from_str(c.as_str().unwrap_or("")).unwrap();
+        let q = Request::new(p.clone(), action.clone(), resource.clone(), Context::empty(), None).unwrap();
+        let scratch = auth.is_authorized(&q, &pset, &full);
+        let re = if req["principal_type"].is_string() {
+            let v = RestrictedExpression::new_entity_uid(p.clone());
+            match pr.reauthorize_with_bindings([("principal", &v)].into_iter(), &auth, &full) { Ok(r2) => { let c = r2.clone().concretize(); json!({"decision": r2.decision().map(|d| format!("{d:?}")), "concretized": view(&c)}) }, Err(e) => json!({"error": e.to_string()}) }
+        } else { J::Null };
+        outs.push(json!({"principal": p.to_string(), "scratch": view(&scratch), "reauthorized": re}));
+    }
+    json!({"partial": summarize_partial(&pr), "completions": outs})
+}
+
 fn handle(req: &J) -> J {
     match req["op"].as_str().unwrap_or("") {
         "eval" => eval(req),
@@ -1690,6 +1762,7 @@ fn handle(req: &J) -> J {
         "ext_parse" => ext_parse(req),
         "value_json" => value_json(req),
         "schema_syntax" => schema_syntax(req),
+        "partial_completions" => partial_completions(req),
         "manifest_slice" => manifest_slice(req),
         "est_print" => est_print(req),
         "ffi_convert" => ffi_convert(req),
